@@ -472,6 +472,11 @@ func mapConfig(cfg *ProducerConfig) (*producerConfigMapped, error) {
 	if cfg != nil {
 		newCfg.IPFIX = mapFieldsNetFlow(cfg.IPFIX.Mapping)
 		newCfg.NetFlowV9 = mapFieldsNetFlow(cfg.NetFlowV9.Mapping)
+		for _, field := range cfg.SFlow.Mapping {
+			if field.Offset < 0 || field.Length < 0 {
+				return nil, fmt.Errorf("layer %s: offset and length must not be negative", field.Layer)
+			}
+		}
 		newCfg.SFlow = mapFieldsSFlow(cfg.SFlow.Mapping)
 		var err error
 		newCfg.SFlow.parserEnvironment, err = mapPortsSFlow(cfg.SFlow.Ports)
